@@ -8,6 +8,8 @@
 #include <map>
 #include <set>
 #include <string>
+#include <execinfo.h>
+#include <sys/syscall.h>
 #include <vector>
 #include <sstream>
 #include <csignal>
@@ -149,8 +151,19 @@ inline void crash_handler(int sig) {
     signal(sig, SIG_DFL);
     raise(sig);
 }
+// SIGUSR2: best-effort stack dump of the receiving thread (sent by the watchdog to every thread right before it reports a hang or
+// a livelock; the process exits afterwards, so async-signal-unsafety of backtrace() is accepted)
+inline void stackdump_handler(int) {
+    void *fr[48];
+    int n = backtrace(fr, 48);
+    char b[64];
+    int l = snprintf(b, sizeof b, "\nVF-STACK tid=%d\n", (int)syscall(SYS_gettid));
+    (void)!write(2, b, l);
+    backtrace_symbols_fd(fr, n, 2);
+}
 inline void install_crash_handler() {
     signal(SIGABRT, crash_handler);
+    signal(SIGUSR2, stackdump_handler);
 #if !defined(__SANITIZE_ADDRESS__) && !defined(__SANITIZE_THREAD__)
     signal(SIGSEGV, crash_handler);
     signal(SIGBUS, crash_handler);
@@ -161,12 +174,26 @@ inline void install_crash_handler() {
     }
 }
 
+// relaxed atomic cell without RMW: readable by the watchdog / hook handler without adding synchronisation between harness threads
+template <typename T> struct rlx {
+    std::atomic<T> v{};
+    rlx() = default;
+    rlx(T x) : v(x) {}
+    rlx(const rlx &o) : v(o.v.load(std::memory_order_relaxed)) {}
+    rlx &operator=(const rlx &o) { v.store(o.v.load(std::memory_order_relaxed), std::memory_order_relaxed); return *this; }
+    operator T() const { return v.load(std::memory_order_relaxed); }
+    T operator=(T x) { v.store(x, std::memory_order_relaxed); return x; }
+    T operator++() { T n = v.load(std::memory_order_relaxed) + 1; v.store(n, std::memory_order_relaxed); return n; }
+    T operator++(int) { T o = v.load(std::memory_order_relaxed); v.store(o + 1, std::memory_order_relaxed); return o; }
+    T operator+=(T d) { T n = v.load(std::memory_order_relaxed) + d; v.store(n, std::memory_order_relaxed); return n; }
+};
+
 // ---------------------------------------------------------------- report
 struct report {
     std::string prop;
     std::string scenario;
     uint64_t seed = 0;
-    uint64_t cases = 0;             // cases executed
+    rlx<uint64_t> cases = 0;        // cases executed (read by the watchdog as progress)
     uint64_t nontrivial_cases = 0;  // cases that were non-trivial by the scenario's rule
     std::map<std::string, uint64_t> sigs;     // distinct non-trivial signatures -> count
     std::map<std::string, uint64_t> classes;  // outcome / interleaving classes -> count
@@ -245,7 +272,7 @@ struct report {
 };
 
 // global pointer used by the watchdog to flush a report when it detects a hang
-inline report *g_active_report = nullptr;
+inline std::atomic<report *> g_active_report{nullptr};
 
 inline uint64_t rdtsc() {
 #if defined(__x86_64__)
